@@ -539,6 +539,8 @@ def reshape(self, *newdims, **kwargs):
 
     # First unflatten the array to compare with flattened newdims
     o = self.unflatten()
+    # axes are renamed below: work on copies, not on the operand's own Axis objects
+    o = o._constructor(o.values, [ax.copy() for ax in o.axes], **o.attrs)
 
     # Temporarily replace "," by ";" in any dimension with is NOT a flattened axis, and flatten all dimensions apart from that
     newdims_renamed = []
